@@ -12,7 +12,7 @@ import (
 )
 
 // leaf keys of the pool in dependency order: a value may only mention later keys (acyclic)
-var c19Pool = []string{"l[0].u", "a", "b", "c.d", "e", "f.g", "m[0][0]", "sel"}
+var c19Pool = []string{"l[0].u", "a", "b", "c.d", "c-x", "e", "f.g", "m[0][0]", "sel"}
 
 func c19Value(r *rand.Rand, idx int) any {
 	if c19Pool[idx] == "sel" { // names the second segment of c.d: ${c.${sel}} is a mention of c.d by a computed name
